@@ -61,7 +61,7 @@ def harnesses(tier):
                 top_crit="free"), o, required_notes=req),
             scenario_harness("nested-own-window-timeout", Profile(
                 templates=("N12",), window="free", timeout="free", perm="id", crit_job=False, crit_sched="free"),
-                o),
+                o + [O.c11_clean_exit]),
             scenario_harness("chains-depth3", Profile(
                 templates=("D3",), raises="free", crit_job="free", crit_sched="free", perm="id", top="sched",
                 top_crit="free", edges="none"), o, required_notes=req),
